@@ -85,4 +85,15 @@ theorem C18_fact_bounded_waits : Facts.stop_bounded_waits =
 /-- send, ping and ACK read each get a deadline -/
 theorem C18_fact_io_deadlines : Facts.stop_io_deadlines = ["SendChunk:SetWriteDeadline", "SendPing:SetWriteDeadline", "ReadChunkAck:SetReadDeadline"] := by decide
 
+/-- "no chunk only in memory": the chunk in hand is remembered until it is queued for acknowledgement, and the leftovers
+not yet resent are part of what `collectLeftovers` merges (same obligations as C02) -/
+theorem C18_fact_nothing_forgotten : Facts.client_last_chunk_assignments =
+    ["resendLeftovers:&chunk", "resendLeftovers:nil(after-send=true,after-failure-return=true)",
+     "processInput:&chunk", "processInput:nil(after-send=true,after-failure-return=true)"] ∧
+    Facts.client_leftover_sources = ["fromPrevious...", "fromAckerChannel...", "fromAckerPending...", "*session.lastChunk"] ∧
+    Facts.stop_resend_collects_previous = ["collectLeftovers(leftovers, endImmediately)", "collectLeftovers(leftovers, endImmediately)"] := by decide
+/-- every connection of the listener has a closer goroutine waiting on the stop request -/
+theorem C18_fact_listener_closers : Facts.stop_listener_closers =
+    ["run: AnyAwaitables(listener.stopRequest, abortListener) -> socket.Close", "launchConnectionCloser: AnyAwaitables(listener.stopRequest, abortConn) -> conn.Close"] := by decide
+
 end C18
